@@ -134,7 +134,11 @@ boost::optional<H5Group> BlockHDF5::findEntityGroup(const nix::Identity &ident) 
 
 std::string BlockHDF5::resolveEntityId(const nix::Identity &ident) const {
     if (!ident.id().empty()) {
-        return ident.id();
+        // a string that looks like a UUID is taken for an id - unless an entity of this block carries it as its name
+        boost::optional<H5Group> p = groupForObjectType(ident.type());
+        if (!(ident.name().empty() && p && p->hasObject(ident.id()))) {
+            return ident.id();
+        }
     }
 
     boost::optional<H5Group> g = findEntityGroup(ident);
